@@ -219,7 +219,11 @@ class MultiportXORMemory(BaseMultiportMemory):
             write_xors[index] ^= write_regs_data[index]
             for i in range(len(self.write_ports) - 1):
                 mem = memory.Memory(
-                    shape=self.shape, depth=self.depth, init=[], attrs=self.attrs, src_loc_at=self.src_loc
+                    shape=self.shape,
+                    depth=self.depth,
+                    init=self.init if index == 0 else [],
+                    attrs=self.attrs,
+                    src_loc_at=self.src_loc,
                 )
                 mem_name = f"memory_{index}_{i}"
                 m.submodules[mem_name] = mem
